@@ -380,7 +380,7 @@ def rule_G(ctx):
                 got = call(arg)
             except orders.Unsupported as ex:
                 raise shape_error('%s not interpretable: %s' % (name, ex), f.loc())
-            except (IndexError, ZeroDivisionError, TypeError, ValueError, KeyError, orders.Raised) as ex:
+            except orders.PROGRAM_ERRORS as ex:
                 got = '%s: %s' % (type(ex).__name__, ex)
             want = orc([v for v in xs if not isn(v)])
             if len(arg) != len(xs) or any(not (a_ == b_ or (isn(a_) and isn(b_))) for a_, b_ in zip(arg, xs)):
@@ -430,7 +430,7 @@ def rule_G(ctx):
                     cell = r.call('getCell', P(x, y))
                 except orders.Unsupported as ex:
                     raise shape_error('getCell not interpretable: %s' % ex, fg.loc())
-                except (IndexError, ZeroDivisionError, TypeError, ValueError, AttributeError, orders.Raised) as ex:
+                except orders.PROGRAM_ERRORS as ex:
                     cell = '%s: %s' % (type(ex).__name__, ex)
                 ok = isinstance(cell, tuple) and len(cell) == 2 and all(isinstance(c, int) and not isinstance(c, bool) for c in cell)
                 why = 'a point of the extent gets a (column, row) pair'
@@ -495,7 +495,7 @@ def rule_G(ctx):
             umaps = {ag: r.call('getAFMap', 'uid#' + ag).fields['grid'] for ag in uid_aggs}
         except orders.Unsupported as ex:
             raise shape_error('raster pipeline not interpretable: %s' % ex, fa.loc())
-        except (IndexError, ZeroDivisionError, TypeError, ValueError, AttributeError, KeyError, orders.Raised) as ex:
+        except orders.PROGRAM_ERRORS as ex:
             bad = bad or {'collection': lname, 'exception': '%s: %s' % (type(ex).__name__, str(ex)[:200])}
             continue
         cells, ucells = {}, {}
